@@ -855,8 +855,17 @@ def model_input(budget, with_settings=False):
                   'desc_col': spec.description_column, 'custom': pairs(spec.custom_captures), 'template': spec.description_template,
                   'extra': pairs(spec.extra_fields), 'loc_col': spec.location_column, 'source_name': spec.source_name,
                   'negate': bool(spec.negate_amount), 'abs': bool(spec.abs_amount)}
-            sources.append({'supplemental': False, 'spec': js, 'cfg': {'eu': s.get('decimal_separator', '.') == ',', 'source': s.get('name', 'CSV'), 'fixed': True},
-                            'rows': rows, 'floats': [], 'dates': [], '_fmt': spec.date_format})
+            src = {'supplemental': False, 'spec': js, 'cfg': {'eu': s.get('decimal_separator', '.') == ',', 'source': s.get('name', 'CSV'), 'fixed': True},
+                   'rows': rows, 'floats': [], 'dates': [], '_fmt': spec.date_format}
+            # the date cells are read by the MODEL of strptime (Model/Strptime, proved and tied in C05): no date oracle on the end-to-end path
+            # either; `tables` = CPython's character tables for the non-ASCII characters of the date cells
+            from . import strptime_corr
+            if strptime_corr.supported_format(spec.date_format):
+                src['strptime_model'] = True
+                tb = strptime_corr.tables_for(spec.date_format, ''.join(r_[spec.date_column] for r_ in rows if len(r_) > spec.date_column))
+                if tb:
+                    src['tables'] = tb
+            sources.append(src)
         mf = config.get('_merchants_file')
         rb = {'mode': config.get('rule_mode', 'first_match'), 'has_engine': False, 'variables': [], 'transforms': [], 'rules': []}
         if mf and mf.endswith('.rules'):
@@ -1006,6 +1015,9 @@ def legacy_book(path, mode):
     return {'rules': out, 'cutoffs': cutoffs}
 
 
+DATE_ORACLE_ASKED = [0]      # strptime questions the pipeline model had to ask CPython (0 when every date format is one the strptime model implements)
+
+
 def fill_csv_oracles(cases):
     """demand-driven float()/strptime tables for every source, via the `csv` op's `misses`"""
     drv = common.Driver()
@@ -1014,7 +1026,8 @@ def fill_csv_oracles(cases):
         for ci, c in enumerate(cases):
             for si, s in enumerate(c['sources']):
                 if not s.get('supplemental'):
-                    batch.append({'op': 'csv', 'spec': s['spec'], 'cfg': s['cfg'], 'rows': s['rows'], 'floats': s['floats'], 'dates': s['dates']})
+                    batch.append({'op': 'csv', 'spec': s['spec'], 'cfg': s['cfg'], 'rows': s['rows'], 'floats': s['floats'], 'dates': s['dates'],
+                                  **{k: s[k] for k in ('strptime_model', 'tables') if k in s}})
                     where.append((ci, si))
         outs = drv.batch(batch)
         progress = False
@@ -1028,6 +1041,7 @@ def fill_csv_oracles(cases):
                     except ValueError:
                         s['floats'].append([arg, None])
                 else:
+                    DATE_ORACLE_ASKED[0] += 1
                     try:
                         s['dates'].append([arg, datetime.datetime.strptime(arg, s['_fmt']).isoformat()])
                     except ValueError:
@@ -1262,6 +1276,7 @@ def neutral_oracle(r, budget, whole):
 
 
 def run(ctx):
+    DATE_ORACLE_ASKED[0] = 0
     def regen_fn(st):
         regen.regen_fmt_tables(st)          # Model/Config reuses C18's parse_format_string model, written over Gen/FmtTables
         regen.regen_config_tables(st)       # the constants of load_config / resolve_source_format / cmd_run (Gen/ConfigTables)
@@ -1452,6 +1467,7 @@ def run(ctx):
         for x in b.get('states', []):
             fs[x] = fs.get(x, 0) + 1
     ctx.notes['source_file_states'] = dict(sorted(fs.items()))
+    ctx.notes['strptime_questions_the_pipeline_model_asked_cpython (dates are read by Model/Strptime)'] = DATE_ORACLE_ASKED[0]
     import yaml
     nc, nfiles, dprobe = {}, 0, {'budgets': 0, 'transactions_required_to_match_an_intact_row': 0}
     oprobe = {'budgets': 0, 'transactions_required_to_match_another_row': 0, 'by_kind': {}}
